@@ -70,7 +70,9 @@ pub fn drive(t: &mut Tracer, tier: &str, seed: u64) {
     // one message of >= 2^29 bytes (bit length >= 2^32): TLC cannot compress 8.4 M blocks, so the per-block observer hook logs the
     // chaining values of ~200 seeded block indices plus every block from the last full message block on; the specification checks each
     // logged compression, the padded tail with its 64-bit length field and the digest (the chain BETWEEN samples is not checked)
-    giant(t, seed, thorough);
+    giant(t, seed, thorough, false);
+    // thorough only: a message of more than 2^32 bytes (block indices beyond 2^26, byte offsets beyond 32 bits; needs about 9 GiB for a minute)
+    if thorough { giant(t, seed, thorough, true); }
     // boundary lengths around multiples of 64 for longer messages
     let g = Gen::new("mix", rng.below(1 << 20));
     let blocks: &[usize] = if thorough { &[16, 33, 64, 100, 255, 256, 1024] } else { &[16, 33] };
@@ -84,15 +86,15 @@ pub fn drive(t: &mut Tracer, tier: &str, seed: u64) {
     }
 }
 
-fn giant(t: &mut Tracer, seed: u64, thorough: bool) {
+fn giant(t: &mut Tracer, seed: u64, thorough: bool, beyond32: bool) {
     use std::collections::HashSet;
     let mut rng = Rng(seed ^ 0x6166);
     let extra = 1 + rng.below(120) as usize;                 // tail of 1..120 bytes: one or two padding blocks
-    let len: usize = (1usize << 29) + 64 * (rng.below(1000) as usize) + extra;
+    let len: usize = (if beyond32 { 1usize << 32 } else { 1usize << 29 }) + 64 * (rng.below(1000) as usize) + extra;
     let g = Gen::new("mix", rng.below(1 << 20));
     let nfull = (len / 64) as u64;
     let mut idx: HashSet<u64> = HashSet::new();
-    for i in [0u64, 1, 2, 63, 64, 65535, 65536, (1 << 22) - 1, 1 << 22, (1 << 23) + 5, nfull - 2, nfull - 1] { idx.insert(i.min(nfull - 1)); }
+    for i in [0u64, 1, 2, 63, 64, 65535, 65536, (1 << 22) - 1, 1 << 22, (1 << 23) + 5, (1 << 26) - 1, 1 << 26, (1 << 26) + 1, (1 << 26) + 7, nfull - 2, nfull - 1] { idx.insert(i.min(nfull - 1)); }
     while idx.len() < (if thorough { 400 } else { 120 }) { idx.insert(rng.below(nfull)); }
     let msg = g.msg(len);
     let out = guard_plain(|| {
@@ -101,7 +103,7 @@ fn giant(t: &mut Tracer, seed: u64, thorough: bool) {
         (d, gm_sm3::verif::stop())
     });
     drop(msg);
-    let sess = "sm3/giant".to_string();
+    let sess = if beyond32 { "sm3/giant2".to_string() } else { "sm3/giant".to_string() };
     let w = |v: &[u32; 8]| -> Vec<u8> { v.iter().flat_map(|x| x.to_be_bytes()).collect() };
     match out.ok() {
         Some((digest, log)) => {
